@@ -1090,4 +1090,41 @@ theorem wirePres_wellformed (w : Wire) (p : Str) (h : wirePres w = some p) :
         unfold canonicalName fqdn; rw [h2]; simp only [if_true]; exact foldStr_idem _
       exact ⟨h1, by rw [hc]; exact h2, by rw [hc2]; exact h2⟩
 
+
+/-! ### a wire hit is a stored entry -/
+
+theorem wireFirstActiveZone_get (H : Hash) (t : Table) (now : Int) (cls : Nat) :
+    ∀ (ss : List Wire) (e : Entry), wireFirstActiveZone H t now cls ss = some e → ∃ h, t.get h = some e := by
+  intro ss
+  induction ss with
+  | nil => intro e h; simp [wireFirstActiveZone] at h
+  | cons s rest ih =>
+    intro e h
+    unfold wireFirstActiveZone at h
+    split at h
+    · exact ih e h
+    · split at h
+      · rename_i e' he'
+        split at h
+        · cases h; exact ⟨_, he'⟩
+        · exact ih e h
+      · exact ih e h
+
+theorem lookupWire_get (H : Hash) (t : Table) (now : Int) (w : Wire) (qt qc : Nat) (cd : Bool) (e : Entry)
+    (h : lookupWire H t now w qt qc cd = some e) : ∃ hh, t.get hh = some e := by
+  unfold lookupWire at h
+  split at h
+  · rename_i e' he'
+    cases h
+    unfold wireExact at he'
+    split at he'
+    · cases he'
+    · split at he'
+      · rename_i e'' hg
+        split at he'
+        · cases he'; exact ⟨_, hg⟩
+        · cases he'
+      · cases he'
+  · exact wireFirstActiveZone_get H t now qc _ e h
+
 end SdnsVerif.Lemmas.FailCache
